@@ -40,6 +40,51 @@ def _stmt_lists(node):
     return out
 
 
+def _plain_attr_names(m, arg) -> bool:
+    """the attribute-name argument of getattr/hasattr is a plain (non-dunder) string literal, or a variable bound only by a
+    for/comprehension over a literal tuple/list of such literals (or of tuples holding them at the variable's position)"""
+    def plain(v):
+        return isinstance(v, ast.Constant) and isinstance(v.value, str) and v.value.isidentifier() and not v.value.startswith("__")
+    if plain(arg):
+        return True
+    if not isinstance(arg, ast.Name):
+        return False
+    binders = []
+    for anc in m.ancestors(arg):
+        gens = anc.generators if isinstance(anc, (ast.ListComp, ast.SetComp, ast.GeneratorExp, ast.DictComp)) else []
+        for g in gens:
+            binders.append((g.target, g.iter))
+        if isinstance(anc, ast.For):
+            binders.append((anc.target, anc.iter))
+        if isinstance(anc, (ast.FunctionDef, ast.Lambda)):
+            break
+    fn = m.enclosing_func(arg)
+    for tgt, it in binders:
+        pos = None
+        if isinstance(tgt, ast.Name) and tgt.id == arg.id:
+            pos = ()
+        elif isinstance(tgt, ast.Tuple):
+            for i_, e_ in enumerate(tgt.elts):
+                if isinstance(e_, ast.Name) and e_.id == arg.id:
+                    pos = (i_,)
+        if pos is None:
+            continue
+        if not isinstance(it, (ast.Tuple, ast.List)) or not it.elts:
+            return False
+        for e_ in it.elts:
+            v = e_
+            if pos:
+                if not isinstance(e_, ast.Tuple) or len(e_.elts) <= pos[0]:
+                    return False
+                v = e_.elts[pos[0]]
+            if not plain(v):
+                return False
+        # no other assignment to the name in the function
+        others = [x for x in ast.walk(fn if fn is not None else m.tree) if isinstance(x, (ast.Assign, ast.AugAssign, ast.AnnAssign)) and any(isinstance(t_, ast.Name) and t_.id == arg.id for t_ in (x.targets if isinstance(x, ast.Assign) else [x.target]))]
+        return not others
+    return False
+
+
 def run(cx):
     mods = [mod(f) for f in TRANSPILE]
     pm = mods[0]
@@ -75,8 +120,8 @@ def run(cx):
                 fnq = m.qualname_of(m.enclosing_func(n)) if m.enclosing_func(n) is not None else "<module>"
                 if cn in FORBIDDEN_CALLS or cn.split(".")[0] in FORBIDDEN_ROOTS:
                     r.fail(f"{fnq}/call[{cn}]", (m, n), f"`{stmt_key(n)}`: the transpiler must not call {cn}")
-                elif cn in ("getattr", "hasattr") and (len(n.args) < 2 or not (isinstance(n.args[1], ast.Constant) and isinstance(n.args[1].value, str) and not n.args[1].value.startswith("__"))):
-                    r.fail(f"{fnq}/getattr-computed", (m, n), f"`{stmt_key(n)}`: attribute name is not a plain literal")
+                elif cn in ("getattr", "hasattr") and (len(n.args) < 2 or not _plain_attr_names(m, n.args[1])):
+                    r.fail(f"{fnq}/getattr-computed", (m, n), f"`{stmt_key(n)}`: attribute name is not a plain literal (nor a loop variable over a literal table of plain names)")
                 else:
                     r.ok(None)
             elif isinstance(n, ast.Attribute):
